@@ -28,7 +28,8 @@ def retarget(text: str, a: str, b: str) -> str:
 
 def variants(a: str):
     base = a.split("/")[-1]
-    return [f"[[{a}]]", f"[[{a}#top]]", f"[[{a}#a/b c]]", f"[[x{a}]]", f"[[{a}x]]", f"[[{a}/sub]]", f"[[dir/{a}]]", f"[[{base}]]" if base != a else "[[zz]]",
+    stem = a.rsplit(".", 1)[0] if "." in base else a + ".zo"  # a template's stem names another page (stem.zo); [[a.zo]] is not a link to page a
+    return [f"[[{stem}]]", f"[[{stem}#top]]", f"[[{a}]]", f"[[{a}#top]]", f"[[{a}#a/b c]]", f"[[x{a}]]", f"[[{a}x]]", f"[[{a}/sub]]", f"[[dir/{a}]]", f"[[{base}]]" if base != a else "[[zz]]",
             f"[[{a}_old]]", f"[[{a.upper()}]]", f"[ [{a}]]", f"(({a}))", f"[#{a}]", f"{a}", f"[[{a}#]]"]
 
 
@@ -42,25 +43,29 @@ def check_case(names, a, b, contents: dict, with_ext=False):
             p = zdir / rel
             p.parent.mkdir(parents=True, exist_ok=True)
             p.write_text(text)
-        src = zdir / (a + ".zo")
+        # a name with an extension of its own (template / query page: daily.zot, q.zoq) names that file and is its link name;
+        # a bare name is the page NAME.zo
+        own_ext = "." in a.split("/")[-1]
+        fa, fb = (a, b) if own_ext else (a + ".zo", b + ".zo")
+        src = zdir / fa
         if not src.exists():
             src.parent.mkdir(parents=True, exist_ok=True)
             src.write_text(f"# page {a}\n\n- 240101#AA self link [[{a}]]\n")
             contents = dict(contents)
-            contents[a + ".zo"] = src.read_text()
-        (zdir / (b + ".zo")).parent.mkdir(parents=True, exist_ok=True)
-        # the command line accepts the names with or without the .zo extension
-        cfg = SimpleNamespace(zettel_dir=zdir, src_name=a + (".zo" if with_ext else ""), dest_name=b + (".zo" if with_ext else ""))
+            contents[fa] = src.read_text()
+        (zdir / fb).parent.mkdir(parents=True, exist_ok=True)
+        # the command line accepts page names with or without the .zo extension
+        cfg = SimpleNamespace(zettel_dir=zdir, src_name=a + (".zo" if with_ext and not own_ext else ""), dest_name=b + (".zo" if with_ext and not own_ext else ""))
         try:
             rc = run_file_rename(cfg)
         except Exception as e:
             return f"rename raised {type(e).__name__}: {str(e)[:200]}"
         if rc != 0:
             return f"exit code {rc}"
-        if src.exists() or not (zdir / (b + ".zo")).exists():
+        if src.exists() or not (zdir / fb).exists():
             return "the file does not live under the new name"
         for rel, text in contents.items():
-            rel2 = (b + ".zo") if rel == a + ".zo" else rel
+            rel2 = fb if rel == fa else rel
             got = (zdir / rel2).read_text()
             want = retarget(text, a, b)
             if got != want:
@@ -73,10 +78,10 @@ def check_case(names, a, b, contents: dict, with_ext=False):
 
 def renames(tier, seed):
     rng = random.Random(seed * 3 + 1)
-    n = 60 if tier == "quick" else 1200
+    n = 400 if tier == "quick" else 4000
     fails, samples, nontriv = [], [], 0
     pairs = [("a", "b"), ("proj", "done/proj"), ("dir/page", "page2"), ("p_1", "p1"), ("x", "x_old"), ("ab", "a"),
-             ("todo", "tasks"), ("quiz", "zoo"), ("zoo", "quiz"), ("memo.", "memo")][:9]
+             ("todo", "tasks"), ("quiz", "zoo"), ("zoo", "quiz"), ("t/daily.zot", "t/day.zot"), ("zoq/q1.zoq", "zoq/q2.zoq"), ("daily.zot", "day.zot")]
     for i in range(n):
         a, b = rng.choice(pairs)
         contents = {}
@@ -93,7 +98,7 @@ def renames(tier, seed):
             fails.append({"a": a, "b": b, "contents": contents, "with_ext": with_ext, "error": err})
         if i < 2:
             samples.append({"a": a, "b": b, "files": sorted(contents)})
-    return {"name": "renames", "bound": f"{n} generated directories (2-5 files among .zo/.zot/.zoq in sub-directories) x 9 (A, B) pairs (names ending in o / z, names given with and without .zo); contents from 15 link-text variants of A (exact, anchors, prefix/suffix/path extensions, case, other bracket forms)",
+    return {"name": "renames", "bound": f"{n} generated directories (2-5 files among .zo/.zot/.zoq in sub-directories) x 12 (A, B) pairs (names ending in o / z, names given with and without .zo, template / query pages renamed with their own extension); contents from 17 link-text variants of A (exact, anchors, prefix/suffix/path extensions, case, other bracket forms)",
             "evaluations": n, "distinct_nontrivial": nontriv, "failures": fails, "samples": samples, "replay_fn": "replay_rename"}
 
 
